@@ -54,7 +54,7 @@ RULE = ("round trip: texts are concatenations of tokens from an alphabet of ASCI
         "NameParts values, @string, preamble, both comments, failed, duplicate-field, duplicate-key and middleware-error blocks) x "
         "every constructor option of either middleware (3x3 option values, a real custom coder, a stub custom coder) x "
         "allow_inplace_modification; contain: stub coders raising four exception kinds (with and without message), always or on a "
-        "trigger substring, on both sides.  A failing round trip is labelled F12-url-raw-specials / F13-keepmath-raw-span only if the text "
+        "trigger substring, on both sides, and a single failing string at every position of entries with 12 / 16 converted strings (plain fields; parts of one NameParts value).  A failing round trip is labelled F12-url-raw-specials / F13-keepmath-raw-span only if the text "
         "has that family's trait (URL match holding a TeX special / two unescaped $ with a TeX special or $ between) AND it passes "
         "with that rule switched off; everything else stays unclassified.  non-trivial = non-empty text / library with at least one block; distinct = distinct spec")
 BOUND = {"quick": "ctor: all 27+27 combinations; scope: 8 fixed libraries x 44 configurations + 500 random pairs; round trip: all <= 3-token "
@@ -563,6 +563,19 @@ def generate(tier, rng):
                 for trigger in ("X", None):
                     for inplace in (True, False):
                         yield "C18.contain", {"library": lib, "side": side, "exc": exc, "msg": msg, "trigger": trigger, "inplace": inplace}, True
+    # the position of the one failing string inside a long entry does not matter (every position of 12 / 16 converted
+    # strings: plain fields, and the parts of one NameParts value after a plain field)
+    for n in (12, 16):
+        for p in range(n):
+            plain = [_entry("long", [["f%d" % i, "hasX" if i == p else "ok%d" % i] for i in range(n)])]
+            parts = ["P%d" % i + ("X" if i == p else "") for i in range(n)]
+            np = {"np": {"first": parts[:n // 4], "von": parts[n // 4:n // 2], "last": parts[n // 2:n - 2], "jr": parts[n - 2:]}}
+            named = [_entry("named", [["title", "fine"], ["author", np]])]
+            for lib in (plain, named):
+                for side in ("enc", "dec"):
+                    for inplace in (True, False):
+                        exc, msg = EXC_KINDS[(p + n) % len(EXC_KINDS)]
+                        yield "C18.contain", {"library": lib, "side": side, "exc": exc, "msg": msg, "trigger": "X", "inplace": inplace}, True
     for _ in range(300 if quick else 3000):
         lib = [b for b in rand_scope_library(rng)]
         exc, msg = rng.choice(EXC_KINDS)
